@@ -101,6 +101,7 @@ fn main() {
             return;
         }
         "compiler" => ops_engine::compiler_tie(&mut rep, n, seed, thorough),
+        "bytesearch" => ops_engine::bytesearch_tie(&mut rep, n, seed),
         "lower" => ops_engine::lower_tie(&mut rep, n, seed, thorough),
         "c12classes" => ops_engine::c12_classes(&mut rep, n, seed, thorough),
         "c12sets" => ops_api::c12_sets(&mut rep, n, seed),
